@@ -61,22 +61,49 @@ func inplaceRef(st []string, content string) string {
 }
 
 func enumFormat(e *common.Enum) {
-	sets := fileSets(e, baseClasses, 3)
-	single := subsets(baseClasses, 1, false)
+	b := baseClasses
+	canon := subsets(b, 3, false)
+	single := subsets(b, 1, false)
 	type job struct {
 		st   []string
 		sets [][]file
 	}
 	var jobs []job
-	for _, st := range styleSingles {
-		jobs = append(jobs, job{st, sets})
-	}
-	for _, st := range stylePairs() {
-		if e.Thorough() {
-			jobs = append(jobs, job{st, sets})
-		} else {
-			jobs = append(jobs, job{st, single})
+	var styles [][]string // for the stdin / inline variants
+	var modeSets [][]file
+	if e.Thorough() {
+		all := subsets(b, 3, true)
+		for _, st := range append(append([][]string{}, styleSingles...), stylePairs()...) {
+			jobs = append(jobs, job{st, all})
 		}
+		styles = append(append(styles, styleSingles...), stylePairs()...)
+		modeSets = all
+	} else {
+		// quick: all 41 sets (plus the pairs in reverse order) under the default style and
+		// all sets under --compact; the other single styles on every single class and two
+		// mixed triples; style pairs on the two classes that formatting changes.
+		var rev [][]file
+		for _, s := range canon {
+			if len(s) == 2 {
+				rev = append(rev, []file{s[1], s[0]})
+			}
+		}
+		small := append(append([][]file{}, single...), []file{b[1], b[3], b[0]}, []file{b[2], b[4], b[5]})
+		for i, st := range styleSingles {
+			switch i {
+			case 0:
+				jobs = append(jobs, job{st, append(append([][]file{}, canon...), rev...)})
+			case 1:
+				jobs = append(jobs, job{st, canon})
+			default:
+				jobs = append(jobs, job{st, small})
+			}
+		}
+		for _, st := range stylePairs() {
+			jobs = append(jobs, job{st, [][]file{{b[1]}, {b[0]}}})
+		}
+		styles = styleSingles
+		modeSets = subsets(b, 2, false)
 	}
 	for _, j := range jobs {
 		for _, fs := range j.sets {
@@ -84,10 +111,7 @@ func enumFormat(e *common.Enum) {
 			do(e, "format-files|"+styleKey(st)+"|"+setKey(fs), func(c *common.Ctx) { formatRelation(c, st, fs) })
 		}
 	}
-	// stdin and inline variants: every class x every style set
-	var styles [][]string
-	styles = append(styles, styleSingles...)
-	styles = append(styles, stylePairs()...)
+	// stdin and inline variants: every class x style set
 	for _, st := range styles {
 		for _, f := range baseClasses {
 			st, f := st, f
@@ -100,7 +124,7 @@ func enumFormat(e *common.Enum) {
 	// mode flag pairs (and -v)
 	modes := [][]string{{"-i", "--check"}, {"-i", "-o", "out.txt"}, {"--check", "-o", "out.txt"}, {"-i", "-v"}, {"--check", "-v"}, {"-v"}}
 	for _, m := range modes {
-		for _, fs := range sets {
+		for _, fs := range modeSets {
 			m, fs := m, fs
 			do(e, "format-modes|"+strings.Join(m, " ")+"|"+setKey(fs), func(c *common.Ctx) { formatModes(c, m, fs) })
 		}
